@@ -38,16 +38,20 @@ def cases(draw, max_steps=12):
     spell["output"] = draw(st.sampled_from(SPELL[:-1] + ["abs"]))
     scn["spell"] = spell
     scn["warm"] = draw(st.sampled_from([False, False, True]))
+    # plug-in files given by path: unique file names, or the same file name in a directory per slot
+    scn["same_stem"] = draw(st.booleans())
     return scn
 
 
-def install_plugins(d: Path, spell, uid):
-    """Copy the recording module under unique names; return slot -> module string, cleanup list."""
+def install_plugins(d: Path, spell, uid, same_stem=False):
+    """Copy the recording module under unique names; return slot -> module string, cleanup list,
+    and slot -> the file that has to run."""
     src = (sim.PLUG / "rec_all.py").read_text()
     decoy = src.replace('KIND = "real"', 'KIND = "decoy"')
     mods = {}
     paths = []
     names = []
+    files = {}
     (d / "plug").mkdir(exist_ok=True)
     (d / "onpath").mkdir(exist_ok=True)
     (d / "decoy").mkdir(exist_ok=True)
@@ -56,12 +60,19 @@ def install_plugins(d: Path, spell, uid):
         if how == "stock":
             continue
         names.append(name)
+        sub = "plug"
+        if same_stem and how in ("abs", "abs_noext", "rel"):
+            # every slot has its own file, all called vplug.py, each in its own directory
+            sub, name = f"plug_{slot}", "vplug"
+            (d / sub).mkdir(exist_ok=True)
         if how in ("abs", "abs_noext"):
-            (d / "plug" / f"{name}.py").write_text(src)
-            mods[slot] = str(d / "plug" / name) + (".py" if how == "abs" else "")
+            (d / sub / f"{name}.py").write_text(src)
+            mods[slot] = str(d / sub / name) + (".py" if how == "abs" else "")
+            files[slot] = d / sub / f"{name}.py"
         elif how == "rel":
-            (d / "plug" / f"{name}.py").write_text(src)
-            mods[slot] = f"plug/{name}.py"
+            (d / sub / f"{name}.py").write_text(src)
+            mods[slot] = f"{sub}/{name}.py"
+            files[slot] = d / sub / f"{name}.py"
         elif how == "bare_cwd":
             (d / f"{name}.py").write_text(src)
             (d / "decoy" / f"{name}.py").write_text(decoy)
@@ -73,7 +84,7 @@ def install_plugins(d: Path, spell, uid):
         p = str(d / sub)
         sys.path.append(p)  # after the regular entries; cwd is not on sys.path
         paths.append(p)
-    return mods, paths, names
+    return mods, paths, names, files
 
 
 def oracle(scn) -> core.CaseResult:
@@ -101,7 +112,7 @@ def oracle(scn) -> core.CaseResult:
                     return res
                 warm_file = d / "base" / "out_000.nc"
                 steps_done = 0
-            mods, paths, names = install_plugins(d, spell, uid)
+            mods, paths, names, files = install_plugins(d, spell, uid, scn.get("same_stem", False))
             path, meta = sim.build(d, scn, record_output=False, record_ibm=False, ibm_offset=steps_done)
             conf = meta["conf"]
             conf["ibm"]["module"] = mods["ibm"]
@@ -124,6 +135,14 @@ def oracle(scn) -> core.CaseResult:
         if not res.check(r["status"] == "ok", "run_fails", f"{r['exc']}\n{(r['tb'] or '')[-700:]}\nspell {spell}"):
             return res
         calls = [e for e in r["log"] if e[0] == "call"]
+        # the file that ran in a slot is the file given for that slot (MARK is the module's __file__)
+        for c in calls:
+            want = files.get(c[1])
+            if want is not None and (d / c[4]).resolve() != want.resolve():
+                res.fail("wrong_file_ran", f"slot {c[1]}: configured {mods[c[1]]} but {c[2]} ran from {c[4]}")
+                break
+        if scn.get("same_stem") and len(files) >= 2:
+            res.cls("same_stem_two_or_more_files")
         outname = "out_001.nc" if scn["warm"] else ("out.nc" if not scn["output"]["numrec"] else None)
         nrec_file = None
         if outname:
